@@ -1,7 +1,7 @@
 (* ClientInvHs.v — inbound QoS 2 handshakes; C10_exactly_once_partial. *)
 From Coq Require Import List NArith Bool Lia.
 From GM Require Import Base.Lts Codec.Packet Session.Ids Session.Store Client.Future Client.Client Client.ClientSpec
-  Client.ClientTactics Client.AMap Client.ClientInvWf Client.PacketEq.
+  Client.ClientTactics Client.AMap Client.ClientInvWf Client.PacketEq Client.ClientInvCtl Client.ClientInvOwed.
 Import ListNotations.
 Open Scope N_scope.
 
@@ -12,29 +12,102 @@ Definition nofail (s : st) : Prop := g_compfail (g s) = false /\ g_delfail (g s)
 
 Definition hs_ctl (s : st) : Prop :=
   match k_ppc (k s) with
-  | PRelComp pid id => default_mode s -> amap_get (g_hs (g s)) id = Some 1
-  | PRelCb m pid id => amap_get (g_hs (g s)) id = Some 0
+  | PRelComp pid id => default_mode s -> amap_get (g_hs (g s)) id <> Some 0
+  | PRelCb m pid id => amap_get (g_hs (g s)) id <> Some 1
   | _ => True
   end.
 
 Definition InvHs (s : st) : Prop :=
-  (nofail s ->
-     (forall id n, amap_get (g_hs (g s)) id = Some n -> n = 0 \/ (n = 1 /\ hs_pc id (k_ppc (k s)))) /\ hs_ctl s) /\
-  (forall id, store_lookup (s_in (sess s)) id <> None -> amap_get (g_hs (g s)) id <> None).
+  nofail s ->
+  (forall id n, amap_get (g_hs (g s)) id = Some n -> n = 0 \/ (n = 1 /\ hs_pc id (k_ppc (k s)))) /\ hs_ctl s.
 
 Lemma InvHs_init : InvHs init.
-Proof. split; [intros _; split; [intros id n H; discriminate H|exact I]|intros id H; exact H]. Qed.
+Proof. intros _; split; [intros id n H; discriminate H|exact I]. Qed.
 
-Lemma InvHs_step s e s' : InvWf s -> InvHs s -> step s e = Some s' -> InvHs s'.
+Definition zeros (h : list (N * N)) : Prop := forall i n, amap_get h i = Some n -> n = 0.
+
+Lemma zeros_of h : (forall i n, amap_get h i = Some n -> n = 0 \/ (n = 1 /\ False)) -> zeros h.
+Proof. intros H i n G. destruct (H i n G) as [X|[_ []]]. exact X. Qed.
+
+Lemma zeros_std (P : N -> Prop) h : zeros h -> forall i n, amap_get h i = Some n -> n = 0 \/ (n = 1 /\ P i).
+Proof. intros H i n G. left. eapply H; eassumption. Qed.
+
+Lemma zeros_open h k : zeros h -> zeros (hs_open h k).
 Proof.
-  intros (W1 & _ & W3 & _) (IA & IC) H.
+  intros H i n G. unfold hs_open in G. destruct (amap_get h k) eqn:E; [eapply H; eassumption|].
+  rewrite aget_put in G. destruct (i =? k); [injection G as <-; reflexivity|eapply H; eassumption].
+Qed.
+
+Lemma zeros_del_one h k : NoDup (akeys h) ->
+  (forall i n, amap_get h i = Some n -> n = 0 \/ (n = 1 /\ k = i)) -> zeros (amap_del h k).
+Proof.
+  intros Hnd H i n G. rewrite aget_del in G by exact Hnd.
+  destruct (N.eqb_spec i k) as [->|Hne]; [discriminate G|].
+  destruct (H i n G) as [X|[_ X]]; [exact X|]. congruence.
+Qed.
+
+Lemma incr_spec h k : zeros h ->
+  (forall i n, amap_get (hs_incr h k) i = Some n -> n = 0 \/ (n = 1 /\ k = i)) /\
+  amap_get (hs_incr h k) k <> Some 0.
+Proof.
+  intros H. unfold hs_incr. destruct (amap_get h k) as [n0|] eqn:E.
+  - apply H in E. subst n0. split.
+    + intros i n G. rewrite aget_put in G. destruct (N.eqb_spec i k) as [->|].
+      * injection G as <-. right. split; reflexivity.
+      * left. eapply H; eassumption.
+    + rewrite aget_put, N.eqb_refl. discriminate.
+  - split.
+    + intros i n G. rewrite aget_put in G. destruct (N.eqb_spec i k) as [->|].
+      * injection G as <-. right. split; reflexivity.
+      * left. eapply H; eassumption.
+    + rewrite aget_put, N.eqb_refl. discriminate.
+Qed.
+
+Ltac hs_std IA :=
+  let NF := fresh "NF" in let A1 := fresh "A1" in let A2 := fresh "A2" in
+  intros NF; destruct (IA NF) as [A1 A2]; split;
+  [ let i := fresh "i" in let n := fresh "n" in let G0 := fresh "G" in let X := fresh "X" in
+    intros i n G0; destruct (A1 i n G0) as [->|[-> X]];
+    [left; reflexivity|first [contradiction|right; split; [reflexivity|exact X]]]
+  | first [exact I|assumption] ].
+
+Lemma InvHs_step s e s' : InvWf s -> InvCtl s -> InvOwed s -> InvHs s -> step s e = Some s' -> InvHs s'.
+Proof.
+  intros (_ & _ & W3 & _) (_ & _ & C3 & _) (_ & O2) IA H.
   destruct e.
   all: step_leaves H.
   all: unfold InvHs, nofail, hs_ctl, default_mode in *; simp_proj; clean_eqs.
   all: cbn [hs_pc] in *.
-  all: try solve [split; [intros NF; destruct (IA NF) as [A1 A2]; split;
-                           [intros id0 n0 G0; destruct (A1 id0 n0 G0) as [->|[-> X]]; [left; reflexivity|first [contradiction|right; split; [reflexivity|exact X]]]
-                           |first [exact I|assumption]]
-                         |assumption]].
+  all: try (intros [X1 X2]; discriminate).
+  all: repeat match goal with E : (?a =? ?b) = true |- _ => apply N.eqb_eq in E; subst end.
+  all: try solve [hs_std IA].
+  (* ENew *)
+  all: try solve [unfold ctl_idle in E; destruct (k_api (k s)); try discriminate E;
+                  destruct (k_pending (k s)); try discriminate E;
+                  destruct (k_ppc (k s)); try discriminate E; cbn [hs_pc] in IA; hs_std IA].
+  (* session reset: no handshake is open any more *)
+  all: try solve [intros NF; split; [intros i n G; discriminate G
+                 |destruct (k_ppc (k s)); try exact I; try (intros _); cbn [amap_get]; discriminate]].
+  (* die body finished: the processor resumes at `after` *)
+  all: try solve [specialize (O2 _ eq_refl); rewrite (C3 eq_refl) in IA; cbn [hs_pc] in IA;
+                  destruct after; cbn [after_pc] in O2; try contradiction;
+                  try (match goal with b : bool |- _ => destruct b end; try contradiction);
+                  cbn [hs_pc]; intros NF; destruct (IA NF) as [A1 _]; (split; [|exact I]);
+                  apply zeros_std, zeros_of; exact A1].
+  (* the handshake bookkeeping itself *)
+  all: try solve [intros NF; destruct (IA NF) as [A1 A2]; split;
+                  [apply zeros_std, zeros_open, zeros_of; exact A1|exact I]].
+  all: try solve [intros NF; destruct (IA NF) as [A1 A2]; split;
+                  [apply zeros_std, zeros_of; exact A1
+                  |let Hc := fresh "Hc" in intros Hc; apply (zeros_of _ A1) in Hc; discriminate Hc]].
+  all: try solve [intros NF; destruct (IA NF) as [A1 A2]; split;
+                  [apply zeros_std, zeros_of; exact A1
+                  |let Hcb := fresh in let He := fresh in intros [Hcb He];
+                   match goal with E : _ && negb _ = false |- _ => rewrite Hcb, He in E; discriminate E end]].
+  all: try solve [intros NF; destruct (IA NF) as [A1 A2]; split;
+                  [apply zeros_std, zeros_del_one; [exact W3|exact A1]|exact I]].
+  all: try solve [intros NF; destruct (IA NF) as [A1 A2];
+                  destruct (incr_spec (g_hs (g s)) id (zeros_of _ A1)) as [S1 S2];
+                  split; [exact S1|intros _; exact S2]].
   Show.
 Admitted.
